@@ -61,7 +61,8 @@ class Recorder:
                     rec.exec_res[idx] = ('raise', e, sys.exc_info()[2])
                     raise
                 except BaseException as e:
-                    rec.exec_res[idx] = ('base', e, None)
+                    # pytest's Skipped derives from BaseException but is caught by run like ExitTestException
+                    rec.exec_res[idx] = ('raise' if type(e).__name__ == 'Skipped' else 'base', e, None)
                     raise
                 rec.exec_res[idx] = ('ok', r, None)
                 return r
